@@ -89,7 +89,11 @@ func init() {
 			w.Silent = map[string]bool{}
 			c.Ev("price_outage_around_incentive_start")
 		}
-		g.Free(n/4, g.StdDt)
+		if c.Job.Index%3 == 1 && !w.Dead {
+			NewChaos(c, w, g).Run(n/4, g.StdDt)
+		} else {
+			g.Free(n/4, g.StdDt)
+		}
 		// drain: everybody claims, seeded random order, consecutive blocks
 		if !w.Dead {
 			perm := g.R.Perm(len(w.All))
